@@ -6,7 +6,7 @@ import ast
 from sa.astx import body_walk, call_attr, call_name, dotted, src
 from sa.selftest import Mutant, Silent
 from sa.source import AnalysisError, class_assigns, methods
-from sa.props._lib_c import (norm_class, anchor_methods, section, LOGGER, assign_pairs, enclosing, gfind, is_const, isolating_with, must_pass, no_exc, parents, self_attr,
+from sa.props._lib_c import (isolating_try, norm_class, norm_func, anchor_methods, section, LOGGER, assign_pairs, enclosing, gfind, is_const, isolating_with, must_pass, no_exc, parents, self_attr,
                              swallowing_predicate)
 
 PROPERTY = "C12"
@@ -171,10 +171,11 @@ def _drain_sites(ctx, f, g, q, names, lists_ok, rule_prefix):
             okargs = (len(c.args) == 1 and isinstance(c.args[0], ast.Starred) and src(c.args[0].value) == a and len(c.keywords) == 1
                       and c.keywords[0].arg is None and src(c.keywords[0].value) == kw)
             ctx.check(okargs, "once/registered-arguments", okey, "the trigger is not called with exactly its registered *args, **kwargs")
-            ctx.check(isolating_with(c, names) is not None, "isolation/swallowing-with-inside-loop", okey,
-                      "the trigger call-out is not wrapped, inside the loop, by a failure handler that swallows exceptions: one raising trigger "
+            tr_, narrow_ = isolating_try(c)
+            ctx.check(isolating_with(c, names) is not None or (tr_ is not None and not narrow_), "isolation/swallowing-with-inside-loop", okey,
+                      "the trigger call-out is not wrapped, inside the loop, by a failure handler that swallows every exception: one raising trigger "
                       "prevents the remaining triggers (and phases) from running")
-            esc = [d for d, l in g.succ[o] if l == "exc" and g.node(d).kind != "with_exit"]
+            esc = [d for d, l in g.succ[o] if l == "exc" and g.node(d).kind not in ("with_exit", "handler")]
             ctx.check(not esc, "isolation/no-escape", okey, "an exception of the trigger leaves the loop", witness=g.describe([o] + esc[:1]))
             for i, (lst, gen) in enumerate(dl):
                 out.append((h, o, (fn, a, kw), lst))
@@ -208,10 +209,13 @@ def _drain_sites(ctx, f, g, q, names, lists_ok, rule_prefix):
                       and c.keywords[0].arg is None and src(c.keywords[0].value) == kw)
             ctx.check(okargs, "once/registered-arguments", okey, "the trigger is not called with exactly its registered *args, **kwargs")
             w_ = isolating_with(c, names)
-            ctx.check(w_ is not None, "isolation/swallowing-with-inside-loop", okey,
-                      "the trigger call-out is not wrapped, inside the loop, by a failure handler that swallows exceptions: one raising trigger "
+            tr_, narrow_ = isolating_try(c)
+            ctx.check(w_ is not None or (tr_ is not None and not narrow_), "isolation/swallowing-with-inside-loop", okey,
+                      ("the trigger call-out is only protected by a handler narrower than BaseException: a trigger raising e.g. SystemExit / KeyboardInterrupt / "
+                       "GeneratorExit ends the loop and " if narrow_ else
+                       "the trigger call-out is not wrapped, inside the loop, by a failure handler that swallows exceptions: one raising trigger ") +
                       "prevents the remaining triggers (and phases) from running")
-            esc = [d for d, l in g.succ[o] if l == "exc" and g.node(d).kind != "with_exit"]
+            esc = [d for d, l in g.succ[o] if l == "exc" and g.node(d).kind not in ("with_exit", "handler")]
             ctx.check(not esc, "isolation/no-escape", okey, "an exception of the trigger leaves the loop", witness=g.describe([o] + esc[:1]))
             out.append((n, o, (fn, a, kw), lst))
     return out
@@ -475,16 +479,57 @@ def check(ctx):
 
     # ---- reactor entry points -------------------------------------------------------------------------------------------------------
     with section(ctx, 'reactor entry points'):
-        f = ctx.func(BASE, "ReactorBase.fireSystemEvent")
-        calls = [c for c in body_walk(f) if isinstance(c, ast.Call) and call_attr(c) == "fireEvent"]
-        ctx.check(len(calls) == 1, "reactor/fires-event", "twisted.internet.base.ReactorBase.fireSystemEvent", "fireSystemEvent does not call fireEvent exactly once")
-        f = ctx.func(BASE, "ReactorBase.addSystemEventTrigger")
+        RK_ = ("fireSystemEvent", "addSystemEventTrigger", "removeSystemEventTrigger", "callWhenRunning", "__init__")
+        f = norm_func(ctx, BASE, "ReactorBase", "fireSystemEvent", RK_)
+        g = ctx.cfg(f)
+        qf = "twisted.internet.base.ReactorBase.fireSystemEvent"
+        fires = gfind(g, lambda x: isinstance(x, ast.Call) and call_attr(x) == "fireEvent")
+        twice = next((g.path([x], [y], strict=True) for x in fires for y in fires if g.path([x], [y], strict=True)), None)
+        ctx.check(bool(fires) and twice is None, "reactor/fires-event", qf, "fireSystemEvent does not fire the registered event exactly once", witness=g.describe(twice))
+        for n in fires:
+            recv = src(next(x for x in ast.walk(g.node(n).ast) if isinstance(x, ast.Call) and call_attr(x) == "fireEvent").func.value)
+            w = None
+            for t in g.ids(lambda nd: nd.kind == "test"):
+                from sa.props._lib_c import is_none_test
+                k = is_none_test(g.node(t).ast, recv)
+                if k is not None:
+                    w = w or must_pass(g, [d for d, l in g.succ[t] if l == ("F" if k else "T")], fires, exc=False)
+            ctx.check(w is None, "reactor/fires-event", qf + " | <registered event>", "a registered event is not fired", witness=g.describe(w))
+        f = norm_func(ctx, BASE, "ReactorBase", "addSystemEventTrigger", RK_)
+        qa = "twisted.internet.base.ReactorBase.addSystemEventTrigger"
         ps = [a.arg for a in f.args.args]
+        ctx.need(len(ps) >= 4 and f.args.vararg and f.args.kwarg, "addSystemEventTrigger(self, phase, eventType, callable, *args, **kwargs)")
+        slot = f"self._eventTriggers[{ps[2]}]"
         calls = [c for c in body_walk(f) if isinstance(c, ast.Call) and call_attr(c) == "addTrigger"]
-        ok = len(calls) == 1 and [src(a) for a in calls[0].args] == [ps[1], ps[3], "*" + f.args.vararg.arg] and [src(k.value) for k in calls[0].keywords] == [f.args.kwarg.arg] \
-            and src(calls[0].func.value) == f"self._eventTriggers[{ps[2]}]"
-        ctx.check(ok, "reactor/registers-trigger", "twisted.internet.base.ReactorBase.addSystemEventTrigger",
-                  "addSystemEventTrigger does not forward (phase, callable, *args, **kwargs) to the event of that type")
+        ctx.check(len(calls) >= 1, "reactor/registers-trigger", qa, "addSystemEventTrigger does not register the trigger with any event")
+
+        def is_event_of_type(e, depth=0):
+            """e denotes the _ThreePhaseEvent registered under eventType: the dict slot itself, or a local every definition of which is
+            a read of that slot / a fresh _ThreePhaseEvent() stored into the slot by the same statement / setdefault on the slot."""
+            if src(e) == slot:
+                return True
+            if isinstance(e, ast.Call) and call_name(e) == "self._eventTriggers.setdefault" and len(e.args) == 2 and src(e.args[0]) == ps[2] and src(e.args[1]) == "_ThreePhaseEvent()":
+                return True
+            if isinstance(e, ast.Name) and depth < 3:
+                defs = [st for st in body_walk(f) if isinstance(st, (ast.Assign, ast.AnnAssign)) and any(isinstance(t, ast.Name) and t.id == e.id for t, v in assign_pairs(st))]
+                if not defs:
+                    return False
+                for st in defs:
+                    pairs = assign_pairs(st)
+                    v = next(v for t, v in pairs if isinstance(t, ast.Name) and t.id == e.id)
+                    stored = any(src(t) == slot and v2 is v for t, v2 in pairs)
+                    if not (is_event_of_type(v, depth + 1) or (src(v) == "_ThreePhaseEvent()" and stored)):
+                        return False
+                return True
+            return False
+        for c in calls:
+            ok = [src(a) for a in c.args] == [ps[1], ps[3], "*" + f.args.vararg.arg] and [src(k.value) for k in c.keywords] == [f.args.kwarg.arg] and is_event_of_type(c.func.value)
+            ctx.check(ok, "reactor/registers-trigger", ctx.construct(qa, "<addTrigger call>"),
+                      "addSystemEventTrigger does not forward (phase, callable, *args, **kwargs) to the event registered for that event type")
+        g = ctx.cfg(f)
+        cn = gfind(g, lambda x: isinstance(x, ast.Call) and call_attr(x) == "addTrigger")
+        w = must_pass(g, [g.entry], cn, exc=False)
+        ctx.check(w is None, "reactor/registers-trigger", qa + " | <all paths>", "addSystemEventTrigger can return without registering the trigger", witness=g.describe(w))
 
 
 def is_const_str(node, value):
@@ -524,6 +569,13 @@ MUTANTS = [
     Mutant("handler-no-longer-swallows", LOGGER, "            self.failure = failure\n            self._fail(failure)\n        return True\n\n\nclass Logger:",
            "            self.failure = failure\n            self._fail(failure)\n            return exc_type is not KeyboardInterrupt\n        return True\n\n\nclass Logger:",
            expect_rule="isolation/"),
+    Mutant("call-helper-catches-only-Exception", BASE, "                with _systemEventHandler:\n                    callable(*args, **kwargs)\n",
+           "                self._invoke(callable, args, kwargs)\n",
+           more=[(BASE, "    def fireEvent(self) -> None:\n", "    def _invoke(self, trigger, positional, named):\n        try:\n            return trigger(*positional, **named)\n"
+                  "        except Exception:\n            _log.failure(\"While calling system event trigger handler\")\n            return None\n\n    def fireEvent(self) -> None:\n")],
+           expect_rule="isolation/swallowing-with-inside-loop"),
+    Mutant("trigger-registered-with-another-event", BASE, "                self._eventTriggers[eventType].addTrigger(\n", "                self._eventTriggers[phase].addTrigger(\n",
+           expect_rule="reactor/registers-trigger"),
     Mutant("before-removal-ignored-while-firing", BASE, "        else:\n            self.removeTrigger_BASE(handle)\n\n    def fireEvent",
            "        else:\n            pass\n\n    def fireEvent", expect_rule="remove/really-removes"),
     Mutant("remover-uses-wrong-field-order", BASE, "            getattr(self, phase).remove((callable, args, kwargs))\n", "            getattr(self, phase).remove((callable, kwargs, args))\n",
@@ -556,4 +608,20 @@ SILENT = [
            more=[(BASE, "    def addTrigger(\n", "    def _listFor(self, phase):\n        if phase not in (\"before\", \"during\", \"after\"):\n            raise KeyError(\"invalid phase\")\n        return getattr(self, phase)\n\n    def addTrigger(\n"),
                  (BASE, "            if phase not in (\"before\", \"during\", \"after\"):\n                raise KeyError(\"invalid phase\")\n            getattr(self, phase).remove((callable, args, kwargs))\n",
                   "            self._listFor(phase).remove((callable, args, kwargs))\n")]),
+
+    # --- second round of independent refactors: helpers shared by several sites (one static, returning from inside the handler), lookup-or-create
+    Silent("call-helper-static-and-state-helper", BASE, _FIRE_LOOP,
+           "            callable, args, kwargs = self.before.pop(0)\n            self.finishedBefore.append((callable, args, kwargs))\n"
+           "            result = self._invoke(callable, args, kwargs)\n",
+           more=[(BASE, "                with _systemEventHandler:\n                    callable(*args, **kwargs)\n", "                self._invoke(callable, args, kwargs)\n"),
+                 (BASE, "        self.state = \"BEFORE\"\n        self.finishedBefore = []\n", "        self._become(\"BEFORE\")\n"),
+                 (BASE, "        self.state = \"BASE\"\n        self.finishedBefore = []\n        for phase", "        self._become(\"BASE\")\n        for phase"),
+                 (BASE, "    def fireEvent(self) -> None:\n", "    def _become(self, newState):\n        self.finishedBefore = []\n        self.state = newState\n\n    @staticmethod\n    def _invoke(trigger, positional, named):\n"
+                  "        with _systemEventHandler:\n            return trigger(*positional, **named)\n        return None\n\n    def fireEvent(self) -> None:\n")]),
+    Silent("event-looked-up-or-created", BASE, "        if eventType not in self._eventTriggers:\n            self._eventTriggers[eventType] = _ThreePhaseEvent()\n",
+           "        try:\n            registered = self._eventTriggers[eventType]\n        except KeyError:\n            registered = self._eventTriggers[eventType] = _ThreePhaseEvent()\n",
+           more=[(BASE, "                self._eventTriggers[eventType].addTrigger(\n", "                registered.addTrigger(\n"),
+                 (BASE, "        if event is not None:\n            event.fireEvent()\n", "        if event is None:\n            return\n        event.fireEvent()\n")]),
+    Silent("call-helper-with-catch-all-try", BASE, "                with _systemEventHandler:\n                    callable(*args, **kwargs)\n",
+           "                try:\n                    callable(*args, **kwargs)\n                except BaseException:\n                    _log.failure(\"While calling system event trigger handler\")\n"),
 ]
